@@ -1,0 +1,46 @@
+//go:build verif
+
+package flood
+
+import (
+	"time"
+
+	"github.com/postalsys/muti-metroo/internal/identity"
+)
+
+// VerifSeenEntry is a copy of one route-advertisement seen-cache entry.
+type VerifSeenEntry struct {
+	Origin   identity.AgentID
+	Sequence uint64
+	SeenAt   time.Time
+	SeenFrom identity.AgentID
+}
+
+// VerifSetSender replaces the PeerSender (verification harness only; call
+// before any traffic is handled).
+func (f *Flooder) VerifSetSender(s PeerSender) { f.sender = s }
+
+// VerifSeenEntries returns a snapshot of the route-advertisement seen cache.
+func (f *Flooder) VerifSeenEntries() []VerifSeenEntry {
+	f.mu.RLock()
+	defer f.mu.RUnlock()
+	out := make([]VerifSeenEntry, 0, len(f.seenCache))
+	for k, e := range f.seenCache {
+		out = append(out, VerifSeenEntry{Origin: k.OriginAgent, Sequence: k.Sequence, SeenAt: e.SeenAt, SeenFrom: e.SeenFrom})
+	}
+	return out
+}
+
+// VerifForgetSeen removes one key from the route-advertisement seen cache
+// (stands for TTL expiry / size eviction of that entry at an arbitrary point).
+func (f *Flooder) VerifForgetSeen(origin identity.AgentID, seq uint64) bool {
+	f.mu.Lock()
+	defer f.mu.Unlock()
+	k := AdvertisementKey{OriginAgent: origin, Sequence: seq}
+	_, ok := f.seenCache[k]
+	delete(f.seenCache, k)
+	return ok
+}
+
+// VerifConfig returns the flooder's configuration as constructed.
+func (f *Flooder) VerifConfig() FloodConfig { return f.cfg }
